@@ -24,3 +24,17 @@ reg("C07", "model_checking", "explicit-state exploration on a virtual event loop
 reg("C19", "exploration", "bounded-exhaustive enumeration of a URL grammar product against the RFC 3986 reference splitter",
     "Pure functions: the full product of URL components (about 70k URLs, str and bytes) plus origin pairs and header/content laws is enumerated; no sampling.",
     "Trusted: the RFC 3986 appendix-B regex reference in mc/props/c19.py. Bounded by the component alphabets listed in the evidence.", "DESIGN.md 5 C19")
+_SEQ_NOTE = ("Trusted: the simulated NetworkBackend (public interface only) with its ledger, the independent peers/parsers in mc/simnet, the reference model written in the check. "
+             "Single caller; bounded alphabets as listed in the evidence.")
+reg("C03", "exploration", "bounded-exhaustive enumeration of request shapes on the real code with an independent wire decoder as oracle",
+    "Full product of method x target x header sequence x body form, HTTP/1.1 and HTTP/2, sync and async, first use and reuse: the bytes received by the simulated peer are decoded by an independent HTTP/1.1 parser / frame-level HTTP/2 peer and compared with the caller's request; illegal heads must raise LocalProtocolError with nothing written (HTTP/1.1).",
+    _SEQ_NOTE, "DESIGN.md 5 C03")
+reg("C10", "exploration", "exhaustive enumeration of the configuration product and of near-miss origin sequences, judged from the backend ledger and the receiving peer",
+    "Every combination of scheme, port form, proxy mode, http1/http2 switches, ALPN outcome and sni_hostname, and every request sequence of length 2-3 over origin pairs that differ in one component: destination, TLS-iff-https/wss, SNI, ALPN offer and protocol choice are read from what the simulated peers saw.",
+    _SEQ_NOTE, "DESIGN.md 5 C10")
+reg("C18", "translation_validation", "translation validation of every line of _sync against unasync(_async) + lock-step differential exploration of sync vs async on the same choice trees",
+    "(a) every file and line of httpcore/_sync equals the in-memory translation of httpcore/_async by the repository's own translator, no async/await token survives; (b) every execution of the sequential fault/segmentation/retry choice trees is run on the sync classes and replayed with the same choices on the async classes: choice-point labels, ledgers, outcomes, pool states and oracle verdicts must agree.",
+    "Trusted: scripts/unasync.py as the definition of the translation; the differential part shares the simulated backend between variants.", "DESIGN.md 5 C18")
+reg("C20", "fault_enumeration", "exhaustive enumeration of the prefix-closed tree of establishment outcome sequences against a reference model of the retry loop",
+    "Every outcome sequence (success / ConnectError / ConnectTimeout / unrelated failure at TCP-or-UDS and TLS stage, then exchange ok/failed) for retries 0..4: attempts, pauses, raised error and absence of post-establishment retries are compared with a 30-line reference model.",
+    _SEQ_NOTE, "DESIGN.md 5 C20")
